@@ -208,6 +208,7 @@ class Contract:
     ground_interp_stride: int = 101
     vc_chunks: int = 1  # symbolic contracts: discharge the VCs in this many parallel jobs (each re-explores the paths)
     crosscheck: int = 12
+    replayable: bool = True  # False: inputs are abstract models with no concrete realisation (no native replay)
     setup_in_crosscheck: bool = False
 
     # -- fluent helpers
